@@ -6,7 +6,6 @@ package main
 import (
 	"go/token"
 	"go/types"
-	"sort"
 	"strings"
 
 	"golang.org/x/tools/go/ssa"
@@ -24,14 +23,17 @@ const (
 )
 
 type c18Op struct {
-	Call *ssa.Call
-	Fn   string // "os.Symlink"
-	Kind c18Kind
-	Path *c18T // the path that is created / replaced / removed / modified
-	Aux  *c18T // Symlink/Link: what the link points to; Rename: the source
-	Data ssa.Value
-	idx  int
-	vdir *c18T // display only: the term of the version directory, abbreviated in constructs
+	Call  *ssa.Call
+	Fn    string // "os.Symlink"
+	Kind  c18Kind
+	Path  *c18T // the path that is created / replaced / removed / modified
+	Aux   *c18T // Symlink/Link: what the link points to; Rename: the source
+	Data  ssa.Value
+	idx   int
+	vdir  *c18T      // display only: the term of the version directory, abbreviated in constructs
+	Fr    *c18Frame  // the expanded frame the call sits in
+	Nodes []*c18Node // its instances in the graph
+	cfg   *c18Cfg    // display only
 }
 
 func (o *c18Op) show(t *c18T) string {
@@ -49,6 +51,9 @@ func (o *c18Op) show(t *c18T) string {
 			}
 			return s
 		}
+	}
+	if o.cfg != nil {
+		return strings.ReplaceAll(t.String(), "F("+o.cfg.Prev+")", "<prev>")
 	}
 	return t.String()
 }
@@ -108,6 +113,12 @@ type c18Cfg struct {
 	TargetDir string
 	Frozen    map[string]bool // fields written only at construction
 	Rules     c18Rules
+	// set by c18ResolveRoles when the state type has a constructor: the target
+	// path as a term over the constructor's inputs (field reads are substituted)
+	resolved  bool
+	targetStr string
+	// the previous-version field is a plain string ("" = none) instead of a *string
+	prevIsString bool
 }
 
 type c18Rules struct{ Order, Complete, Paths, Fresh, Leftover, Prev, NilRet string }
@@ -246,19 +257,42 @@ func c18ErrTests(call *ssa.Call) (tests []c18ErrTest, errv ssa.Value) {
 	return
 }
 
-// c18Same: structural equality of path terms modulo the layout alias
-// join(base, targetDir) == target.
+// norm: structural equality of path terms modulo the layout aliases
+// join(Dir(X), Base(X)) == X and (fixture mode) join(base, targetDir) == target.
 func (cfg *c18Cfg) norm(t *c18T) string {
 	s := t.String()
-	if cfg.Base != "" && s == "join(F("+cfg.Base+"),F("+cfg.TargetDir+"))" {
+	if !cfg.resolved && cfg.Base != "" && s == "join(F("+cfg.Base+"),F("+cfg.TargetDir+"))" {
 		return "F(" + cfg.Target + ")"
+	}
+	if t.Op == "join" && len(t.Args) == 2 {
+		a, b := t.Args[0], t.Args[1]
+		if a.Op == "pathfn" && a.Lit == "Dir" && b.Op == "pathfn" && b.Lit == "Base" && len(a.Args) == 1 && len(b.Args) == 1 && a.Args[0].String() == b.Args[0].String() {
+			return a.Args[0].String()
+		}
 	}
 	return s
 }
 
-func (cfg *c18Cfg) isTarget(t *c18T) bool { return cfg.norm(t) == "F("+cfg.Target+")" }
-func (cfg *c18Cfg) isPrev(t *c18T) bool   { return t.String() == "*F("+cfg.Prev+")" }
-func (cfg *c18Cfg) isBase(t *c18T) bool   { return cfg.Base != "" && t.String() == "F("+cfg.Base+")" }
+func (cfg *c18Cfg) targetTerm() string {
+	if cfg.resolved {
+		return cfg.targetStr
+	}
+	return "F(" + cfg.Target + ")"
+}
+
+func (cfg *c18Cfg) isTarget(t *c18T) bool { return cfg.norm(t) == cfg.targetTerm() }
+func (cfg *c18Cfg) isPrev(t *c18T) bool {
+	if cfg.prevIsString {
+		return t.String() == "F("+cfg.Prev+")"
+	}
+	return t.String() == "*F("+cfg.Prev+")"
+}
+func (cfg *c18Cfg) isBase(t *c18T) bool {
+	if cfg.resolved {
+		return t.String() == "Dir("+cfg.targetStr+")"
+	}
+	return cfg.Base != "" && t.String() == "F("+cfg.Base+")"
+}
 
 // under reports whether t is dir itself or join(dir, ...).
 func c18Under(t, dir *c18T) (under, self bool) {
@@ -290,526 +324,6 @@ func c18Under(t, dir *c18T) (under, self bool) {
 	return false, false
 }
 
-// c18CheckWriter runs the W1/W2/W3 rules on one writer function.
-// name = position-free function name used as construct prefix.
-func c18CheckWriter(p *Prog, r *Report, fn *ssa.Function, name string, cfg *c18Cfg) {
-	_, unknown := c18CollectOps(p, newC18Terms(p), fn)
-	_, dunk := c18CollectDeferred(p, newC18Terms(p), fn)
-	unknown = append(unknown, dunk...)
-	if len(unknown) == 0 {
-		c18CheckWriterCore(p, r, fn, name, cfg)
-		return
-	}
-	// The function has file-system effects the model does not see (helpers, *os.File, …): a "required step
-	// is missing" finding may be wrong (the step may sit in the helper) and is downgraded to UNDECIDED; a
-	// "harmful step is present" finding stays a violation.
-	tmp := NewReport(r.Prop, r.Tier)
-	c18CheckWriterCore(p, tmp, fn, name, cfg)
-	for _, o := range tmp.Obs {
-		switch {
-		case o.Status != StViolation && o.Nontrivial:
-			r.OK(o.Rule, o.Construct, o.Pos, o.Message)
-		case o.Status != StViolation:
-			r.Trivial(o.Rule, o.Construct, o.Pos, o.Message)
-		case o.Rule == cfg.Rules.Paths || strings.HasSuffix(o.Construct, " after publish"):
-			r.Violation(o.Rule, o.Construct, o.Pos, o.Message, o.Witness...)
-		default:
-			r.Undecide("%s %s: %s — not reported as a violation because %s has file-system effects this check does not model", o.Rule, o.Construct, o.Message, name)
-		}
-	}
-	r.Undecided = append(r.Undecided, tmp.Undecided...)
-	r.Notes = append(r.Notes, tmp.Notes...)
-}
-
-func c18CheckWriterCore(p *Prog, r *Report, fn *ssa.Function, name string, cfg *c18Cfg) {
-	R := cfg.Rules
-	tt := newC18Terms(p)
-	ops, unknown := c18CollectOps(p, tt, fn)
-	deferred, dunk := c18CollectDeferred(p, tt, fn)
-	unknown = append(unknown, dunk...)
-	sort.Strings(unknown)
-	for _, u := range unknown {
-		r.Undecide("%s calls %s: a file-system effect this check does not model", name, u)
-	}
-	pos := func(in ssa.Instruction) string { return p.Pos(instrPos(in)) }
-
-	// ---- roles -----------------------------------------------------------
-	var publish []*c18Op
-	for _, o := range ops {
-		if o.Kind == c18Rename && cfg.isTarget(o.Path) {
-			publish = append(publish, o)
-		}
-	}
-	if len(publish) == 0 {
-		r.Violation(R.Order, name+" publish: rename over target", p.Pos(fn.Pos()),
-			"no os.Rename whose destination is the target path: the target is no longer switched atomically from one complete version to the next (any other way of replacing it has an instant where it is absent or half-made)")
-	}
-	if len(publish) > 1 {
-		r.Undecide("%s renames over the target at %d places: shape not modelled", name, len(publish))
-	}
-	var pub, link, mk *c18Op
-	var vdir *c18T
-	if len(publish) >= 1 {
-		pub = publish[0]
-		for _, o := range ops {
-			if o.Kind == c18CreateExcl && o.Fn == "os.Symlink" && o.Path.String() == pub.Aux.String() {
-				link = o
-			}
-		}
-		if link == nil {
-			var other *c18Op
-			for _, o := range ops {
-				if o.Fn == "os.Symlink" {
-					other = o
-				}
-			}
-			if other != nil {
-				r.Violation(R.Order, name+" publish: rename over target", p.Pos(instrPos(pub.Call)),
-					"the rename over the target takes "+pub.Aux.String()+" as its source but the symlink made in this call is at "+other.Path.String()+": the link to the new version is never what gets published (the rename fails, or publishes whatever an earlier call left at its source)")
-			} else {
-				r.Undecide("%s: the source of the publishing rename (%s) is not created by an os.Symlink in the same function: mechanism changed, not modelled", name, pub.Aux)
-			}
-		} else {
-			vdir = link.Aux
-			for _, o := range ops {
-				o.vdir = vdir
-			}
-		}
-	}
-
-	vsrc := link
-	if vdir == nil {
-		// classification only: a symlink made directly onto the target still names the version directory
-		for _, o := range ops {
-			if o.Fn == "os.Symlink" && cfg.isTarget(o.Path) {
-				vdir, vsrc = o.Aux, o
-			}
-		}
-	}
-
-	// ---- W2: provenance of every mutated path ---------------------------------
-	for _, o := range ops {
-		construct := name + " " + o.desc()
-		var bad, why string
-		switch {
-		case cfg.isTarget(o.Path):
-			if o.Kind != c18Rename {
-				bad = "the target path itself is mutated by " + o.Fn + ", not by an atomic rename: a crash (or a reader) between this step and the next sees the target absent or half-replaced"
-			} else {
-				why = "target only replaced by rename"
-			}
-		case o.Kind == c18Rename && cfg.isTarget(o.Aux):
-			bad = "the target is renamed away: from that instant the target is absent although a version was published"
-		case cfg.isPrev(o.Path):
-			if o.Kind != c18Remove {
-				bad = "the previous version directory is modified by " + o.Fn + " (it may still be what the target resolves to)"
-			} else {
-				why = "previous version directory removed"
-			}
-		case cfg.isBase(o.Path):
-			if o.Kind != c18MkdirIdem {
-				bad = "the base directory (parent of the target and of every version) is changed by " + o.Fn
-			} else {
-				why = "base directory ensured (idempotent)"
-			}
-		case link != nil && o.Path.String() == link.Path.String():
-			why = "temporary link path"
-		case vdir != nil:
-			if under, self := c18Under(o.Path, vdir); under {
-				switch {
-				case self && (o.Kind == c18MkdirIdem || o.Kind == c18CreateExcl):
-					why = "version directory created"
-				case !self && o.Kind == c18WriteKind:
-					why = "file written below the version directory"
-				case o.Kind == c18Remove:
-					why = "cleanup of the unpublished version directory (position checked by " + R.Order + ")"
-				default:
-					why = "operation below the version directory"
-				}
-			}
-		}
-		if bad == "" && why == "" {
-			r.Undecide("%s: cannot relate the path of %s to the target, the version directory, the temporary link or prev", name, o.desc())
-			continue
-		}
-		r.Check(bad == "", R.Paths, construct, pos(o.Call), why, bad)
-	}
-
-	// ---- W2: freshness of the version directory ----------------------------------
-	if vdir != nil {
-		construct := name + " version directory name"
-		switch c18Classify(vdir, cfg.Frozen) {
-		case c18Invariant:
-			r.Violation(R.Fresh, construct, pos(vsrc.Call),
-				"the version directory has the same name on every call ("+vdir.String()+"): the second Write creates its files inside the directory the target currently resolves to, so readers see a mixed/partial set while it runs and after a crash")
-		case c18Varying:
-			r.Undecide("%s: cannot tell whether the version directory name %s is unique per call", name, vdir)
-		case c18Fresh:
-			coarse := ""
-			unknownRes := false
-			for _, ch := range c18TimeMethods(vdir) {
-				last := ""
-				for _, m := range ch {
-					switch m {
-					case "UTC", "Local", "In", "Round", "Truncate", "Add":
-					default:
-						last = m
-					}
-				}
-				switch last {
-				case "UnixNano", "UnixMicro":
-				case "Unix", "UnixMilli", "Year", "Month", "Day", "Hour", "Minute", "Second", "YearDay", "Weekday":
-					coarse = last
-				default:
-					unknownRes = true
-				}
-			}
-			hasOther := false
-			vdir.walk(func(x *c18T) {
-				if x.Op == "fresh" {
-					hasOther = true
-				}
-			})
-			switch {
-			case hasOther:
-				r.OK(R.Fresh, construct, pos(vsrc.Call), "name contains a per-call unique component")
-			case coarse != "":
-				r.Violation(R.Fresh, construct, pos(vsrc.Call),
-					"the only per-call component of the version directory name is time.Now()."+coarse+"(), coarser than the duration of a Write: two Writes within the same tick share a version directory, the second one overwrites files in the directory the target already resolves to (mixed set) and its RemoveAll(prev) then deletes the published directory")
-			case unknownRes:
-				r.Undecide("%s: resolution of the time component in %s not recognised", name, vdir)
-			default:
-				r.OK(R.Fresh, construct, pos(vsrc.Call), "name contains time.Now() at nano/microsecond resolution")
-			}
-		}
-	}
-
-	if link != nil && cfg.Base != "" && strings.HasPrefix(vdir.String(), "join(F("+cfg.Base+")") {
-		r.Note("%s: the link content %s is base-relative when the target was given as a relative path with a directory part (the OS resolves link contents relative to the link's own directory, so target \"certs/id\" yields a dangling link certs/id -> certs/<n>-id); not armed: the statement does not quantify over relative targets", name, vdir)
-	}
-
-	// ---- W3: crash leftovers ------------------------------------------------------
-	removedFirst := c18CheckLeftovers(p, r, fn, name, cfg, ops)
-
-	if pub == nil || link == nil {
-		if len(deferred) > 0 {
-			r.Undecide("%s: deferred file-system operations are not judged because the publishing rename / link was not identified", name)
-		}
-		return
-	}
-	for _, o := range ops {
-		if o.Kind == c18MkdirIdem || o.Kind == c18CreateExcl {
-			if _, self := c18Under(o.Path, vdir); self {
-				mk = o
-			}
-		}
-	}
-
-	// ---- dataflow: success / failure facts --------------------------------------
-	// must-bits: bit i = "op i was executed and its error result was seen nil"
-	// may-bits : bit i = "op i failed (error seen non-nil) on some path to here"
-	type edgeKey struct{ from, to *ssa.BasicBlock }
-	succEdge, failEdge := map[edgeKey]uint64{}, map[edgeKey]uint64{}
-	unchecked := map[*c18Op]string{}
-	for _, o := range ops {
-		tests, errv := c18ErrTests(o.Call)
-		for _, t := range tests {
-			if t.Succ != t.Fail {
-				succEdge[edgeKey{t.If.Block(), t.Succ}] |= 1 << uint(o.idx)
-				failEdge[edgeKey{t.If.Block(), t.Fail}] |= 1 << uint(o.idx)
-			}
-		}
-		if len(tests) == 0 {
-			if errv == nil || len(c18Refs(errv)) == 0 {
-				unchecked[o] = "discarded"
-			} else {
-				unchecked[o] = "used-otherwise"
-			}
-		}
-	}
-	if len(ops) > 20 {
-		r.Undecide("%s performs %d file-system operations: too many for this check", name, len(ops))
-		return
-	}
-	const (
-		bPublished  = 40 + iota // the publishing rename was executed
-		bPrevSet                // prev points at this call's version directory
-		bPrevDone               // prev seen nil, or RemoveAll(*prev) executed
-		bPrevStored             // prev was overwritten
-		bLoopDone               // the loop over the file map ran to its end
-		bPubOK                  // the publishing rename may have succeeded
-	)
-	prevStoreKind := func(in ssa.Instruction) int { // 0 none, 1 = this version dir, 2 = something else
-		st, ok := in.(*ssa.Store)
-		if !ok {
-			return 0
-		}
-		fa, ok := st.Addr.(*ssa.FieldAddr)
-		if !ok || fieldIDOfAddr(fa).String() != cfg.Prev {
-			return 0
-		}
-		t := tt.Term(st.Val)
-		if t.Op == "call" && t.Lit == "addr" && len(t.Args) == 1 && t.Args[0].String() == vdir.String() {
-			return 1
-		}
-		return 2
-	}
-	isPrevRemove := func(in ssa.Instruction) *c18Op {
-		for _, o := range ops {
-			if o.Call == in && o.Kind == c18Remove && cfg.isPrev(o.Path) {
-				return o
-			}
-		}
-		return nil
-	}
-	prevNilEdge := func(from, to *ssa.BasicBlock) bool {
-		if len(from.Instrs) == 0 || len(from.Succs) != 2 || from.Succs[0] == from.Succs[1] {
-			return false
-		}
-		ifi, ok := from.Instrs[len(from.Instrs)-1].(*ssa.If)
-		if !ok {
-			return false
-		}
-		cmp, ok := decodeCond(ifi.Cond, from.Succs[0] == to)
-		if !ok || cmp.Op != token.EQL {
-			return false
-		}
-		for _, pr := range [][2]ssa.Value{{cmp.X, cmp.Y}, {cmp.Y, cmp.X}} {
-			if id, _, ok := fieldOfValue(pr[0]); ok && id.String() == cfg.Prev && isNilConst(pr[1]) {
-				return true
-			}
-		}
-		return false
-	}
-	// the loop over the files
-	writeBlocks := map[*ssa.BasicBlock]bool{}
-	for _, o := range ops {
-		if under, self := c18Under(o.Path, vdir); under && !self && o.Kind == c18WriteKind {
-			writeBlocks[o.Call.Block()] = true
-		}
-	}
-	loop := c18FindFileLoop(fn, writeBlocks)
-	must := &FlagFlow{Fn: fn, Must: true,
-		Transfer: func(in ssa.Instruction, st uint64) uint64 {
-			if in == ssa.Instruction(pub.Call) {
-				st |= 1 << bPublished
-			}
-			switch prevStoreKind(in) {
-			case 1:
-				st |= 1 << bPrevSet
-			case 2:
-				st &^= 1 << bPrevSet
-			}
-			if isPrevRemove(in) != nil {
-				st |= 1 << bPrevDone
-			}
-			return st
-		},
-		EdgeTransfer: func(from, to *ssa.BasicBlock, st uint64) uint64 {
-			st |= succEdge[edgeKey{from, to}]
-			if prevNilEdge(from, to) {
-				st |= 1 << bPrevDone
-			}
-			if loop != nil && from == loop.Header && to == loop.Exit {
-				st |= 1 << bLoopDone
-			}
-			return st
-		}}
-	must.Run()
-	may := &FlagFlow{Fn: fn, Must: false,
-		Transfer: func(in ssa.Instruction, st uint64) uint64 {
-			if in == ssa.Instruction(pub.Call) {
-				st |= 1 << bPublished
-			}
-			if prevStoreKind(in) != 0 {
-				st |= 1 << bPrevStored
-			}
-			return st
-		},
-		EdgeTransfer: func(from, to *ssa.BasicBlock, st uint64) uint64 {
-			if succEdge[edgeKey{from, to}]&(1<<uint(pub.idx)) != 0 {
-				st |= 1 << bPubOK
-			}
-			return st | failEdge[edgeKey{from, to}]
-		}}
-	if unchecked[pub] != "" {
-		prev := may.Transfer
-		may.Transfer = func(in ssa.Instruction, st uint64) uint64 {
-			st = prev(in, st)
-			if in == ssa.Instruction(pub.Call) {
-				st |= 1 << bPubOK
-			}
-			return st
-		}
-	}
-	may.Run()
-	bit := func(st uint64, b int) bool { return st&(1<<uint(b)) != 0 }
-
-	// ---- W1: order of the steps ---------------------------------------------------
-	mustAtPub, _ := must.Before(pub.Call)
-	mayAtPub, _ := may.Before(pub.Call)
-
-	// every step that has to succeed before publishing
-	for _, o := range ops {
-		under, _ := c18Under(o.Path, vdir)
-		isLink := o == link
-		if !(isLink || (under && o.Kind != c18Remove)) {
-			continue
-		}
-		if !instrReaches(o.Call, pub.Call) {
-			continue // after the publish: handled below
-		}
-		construct := name + " " + o.desc() + " must succeed before publish"
-		// A missing/failed link step is harmful only when a stale link of an earlier, crashed call can sit at
-		// the link path (then the rename publishes that one); if the path is removed first the rename just fails.
-		violate := func(msg string) {
-			if isLink && !removedFirst[o] {
-				// the outcome (stale link published / blocked forever / recovered) is decided by W3-leftover
-				r.Trivial(R.Order, construct, pos(o.Call), "link path not removed first: failure handling judged by "+R.Leftover)
-				return
-			}
-			if isLink && removedFirst[o] {
-				r.Note("%s: %s (not armed: the link path is removed first, so the rename then fails instead of publishing something else)", construct, msg)
-				r.Trivial(R.Order, construct, pos(o.Call), "NOTE only: "+msg)
-				return
-			}
-			r.Violation(R.Order, construct, pos(o.Call), msg)
-		}
-		switch unchecked[o] {
-		case "discarded":
-			violate("the error result of " + o.Fn + " is discarded: when it fails the function goes on and renames a link to an incomplete (or missing, or stale) version directory over the target")
-			continue
-		case "used-otherwise":
-			if isLink && !removedFirst[o] {
-				violate("the error result of " + o.Fn + " is not tested against nil")
-				continue
-			}
-			r.Undecide("%s: the error result of %s is not tested against nil directly; shape not modelled", name, o.desc())
-			continue
-		}
-		if bit(mayAtPub, o.idx) {
-			// the failure edge reaches the publish. Tolerant shapes (errors.Is / os.IsExist on the failure path) are not judged.
-			if isLink {
-				violate("a path on which " + o.Fn + " failed still reaches the rename over the target")
-			} else if c18FailureIsInspected(o) {
-				r.Undecide("%s: a failure of %s is inspected (errors.Is/os.IsExist…) and may be tolerated; shape not modelled", name, o.desc())
-			} else {
-				violate("a path on which " + o.Fn + " failed still reaches the rename over the target: an incomplete (or stale) version directory gets published")
-			}
-			continue
-		}
-		if o == link || o == mk {
-			if bit(mustAtPub, o.idx) {
-				r.OK(R.Order, construct, pos(o.Call), "every path to the publishing rename passes the success edge of this step")
-			} else {
-				violate("the publishing rename can be reached without " + o.Fn + " having been executed successfully")
-			}
-			continue
-		}
-		r.OK(R.Order, construct, pos(o.Call), "no path on which this step failed reaches the publishing rename")
-	}
-	if mk == nil {
-		r.Violation(R.Order, name+" version directory created", pos(link.Call), "the version directory "+vdir.String()+" is never created in this function")
-	} else {
-		// files are written only once the directory exists
-		for _, o := range ops {
-			if under, self := c18Under(o.Path, vdir); under && !self && o.Kind == c18WriteKind {
-				st, _ := must.Before(o.Call)
-				r.Check(bit(st, mk.idx), R.Order, name+" "+o.desc()+" after version directory creation", pos(o.Call),
-					"dominated by the success edge of the directory creation", "a file is written below the version directory on a path where the directory was not (successfully) created first")
-			}
-		}
-	}
-	// link points at the version dir that was filled in this call: by construction vdir = link.Aux; files must be under it
-	nFiles := 0
-	for _, o := range ops {
-		if under, self := c18Under(o.Path, vdir); under && !self && o.Kind == c18WriteKind {
-			nFiles++
-		}
-	}
-	if nFiles == 0 {
-		r.Violation(R.Complete, name+" files written below the linked directory", pos(link.Call), "no file is written below the directory the new link points to ("+vdir.String()+"): what gets published is not the set written by this call")
-	}
-	// nothing touches the published version after the rename
-	for _, o := range ops {
-		if under, _ := c18Under(o.Path, vdir); under && o != link {
-			st, reach := may.Before(o.Call)
-			if reach && bit(st, bPublished) {
-				r.Violation(R.Order, name+" "+o.desc()+" after publish", pos(o.Call), o.Fn+" acts on the version directory after it was renamed over the target: readers resolve the target to a directory that is still changing (partial set), or that is deleted")
-			}
-		}
-	}
-	r.Check(true, R.Order, name+" publish: rename over target", pos(pub.Call), "single rename whose destination is the target and whose source is the link created in this call", "")
-
-	// ---- W1: complete set -----------------------------------------------------------
-	c18CheckLoop(p, r, fn, name, cfg, tt, loop, ops, vdir, pub, bit(mustAtPub, bLoopDone))
-
-	// ---- W1: prev handling ---------------------------------------------------------
-	nPrevRemove := 0
-	for _, o := range ops {
-		if o.Kind == c18Remove && cfg.isPrev(o.Path) {
-			nPrevRemove++
-			stMust, _ := must.Before(o.Call)
-			stMay, _ := may.Before(o.Call)
-			r.Check(bit(stMust, pub.idx), R.Prev, name+" "+o.desc()+" only after successful publish", pos(o.Call),
-				"dominated by the success edge of the publishing rename",
-				"the previous version directory can be removed before the target was switched away from it (or although the switch failed): the target then resolves to a deleted directory")
-			r.Check(!bit(stMay, bPrevStored), R.Prev, name+" "+o.desc()+" before prev is overwritten", pos(o.Call),
-				"prev still names the previous version when it is removed",
-				"prev is overwritten before this removal: what gets deleted is the version directory that was just published, the target dangles")
-		}
-	}
-	if nPrevRemove == 0 {
-		r.Violation(R.Prev, name+" removes previous version", p.Pos(fn.Pos()), "no os.Remove/RemoveAll of *"+cfg.Prev+": superseded version directories are never deleted (without crashes more than the current version remains)")
-	}
-
-	// ---- deferred clean-up ---------------------------------------------------------------
-	closureWrites := c18ClosureWrites(fn)
-	c18CheckDeferred(p, r, fn, name, cfg, deferred, vdir, link, closureWrites, func(in ssa.Instruction) bool {
-		st, ok := may.Before(in)
-		return ok && bit(st, bPubOK)
-	})
-
-	// ---- returns ------------------------------------------------------------------------
-	nNil := 0
-	must.AtReturns(func(ret *ssa.Return, st uint64) {
-		if len(ret.Results) == 0 {
-			return
-		}
-		if c18ReturnErrKind(ret, closureWrites) != "nil" {
-			return
-		}
-		nNil++
-		r.Check(bit(st, pub.idx), R.NilRet, name+" return nil => target renamed", pos(ret),
-			"every nil return is dominated by the success edge of the publishing rename",
-			"the function can return nil (at "+pos(ret)+") although the rename over the target did not happen or failed: the caller is told the new set is in place while the target still shows the old one (or nothing)")
-		if nPrevRemove > 0 {
-			r.Check(bit(st, bPrevDone), R.Prev, name+" return nil => previous version removed or none", pos(ret),
-				"on every successful path prev was nil or was removed",
-				"a successful return (at "+pos(ret)+") is reachable without removing the previous version directory although prev was set: old versions accumulate")
-		}
-		r.Check(bit(st, bPrevSet), R.Prev, name+" return nil => prev = this version directory", pos(ret),
-			"prev is set to the directory published by this call on every successful path",
-			"a successful return (at "+pos(ret)+") leaves prev not pointing at the directory just published: the next Write deletes the wrong directory or never deletes this one")
-	})
-	if nNil == 0 {
-		r.Undecide("%s has no return that provably yields a nil error: success exits not recognised", name)
-	}
-}
-
-// instrReaches: b is reachable from a (same function), including a later position in the same block.
-func instrReaches(a, b ssa.Instruction) bool {
-	if a.Block() == b.Block() && instrIndex(a) < instrIndex(b) {
-		return true
-	}
-	for _, s := range a.Block().Succs {
-		if reachableFrom(s, nil)[b.Block()] {
-			return true
-		}
-	}
-	return false
-}
-
 // c18FailureIsInspected: on the blocks dominated by a failure edge of op, the
 // error is passed to errors.Is/As or os.IsExist/IsNotExist (a tolerant shape).
 func c18FailureIsInspected(o *c18Op) bool {
@@ -834,362 +348,4 @@ func c18FailureIsInspected(o *c18Op) bool {
 	}
 	_ = tests
 	return found
-}
-
-type c18Loop struct {
-	Range  *ssa.Range
-	Next   *ssa.Next
-	Header *ssa.BasicBlock
-	Body   *ssa.BasicBlock
-	Exit   *ssa.BasicBlock
-	Blocks map[*ssa.BasicBlock]bool
-}
-
-// c18FindFileLoop finds the `for k, v := range <map parameter>` loop that
-// contains one of the blocks in want (the file writes).
-func c18FindFileLoop(fn *ssa.Function, want map[*ssa.BasicBlock]bool) *c18Loop {
-	var out *c18Loop
-	allInstrs(fn, func(in ssa.Instruction) {
-		nx, ok := in.(*ssa.Next)
-		if !ok {
-			return
-		}
-		rg, ok := nx.Iter.(*ssa.Range)
-		if !ok {
-			return
-		}
-		pa, ok := rg.X.(*ssa.Parameter)
-		if !ok {
-			return
-		}
-		if _, ok := pa.Type().Underlying().(*types.Map); !ok {
-			return
-		}
-		// the If on extract #0
-		for _, r := range refs(nx) {
-			ex, ok := r.(*ssa.Extract)
-			if !ok || ex.Index != 0 {
-				continue
-			}
-			for _, rr := range refs(ex) {
-				if ifi, ok := rr.(*ssa.If); ok && ifi.Block() == nx.Block() {
-					l := &c18Loop{Range: rg, Next: nx, Header: nx.Block(), Body: ifi.Block().Succs[0], Exit: ifi.Block().Succs[1], Blocks: map[*ssa.BasicBlock]bool{}}
-					fromH := reachableFrom(l.Header, nil)
-					for _, b := range fn.Blocks {
-						if fromH[b] && reachableFrom(b, nil)[l.Header] {
-							l.Blocks[b] = true
-						}
-					}
-					has := false
-					for b := range l.Blocks {
-						if want[b] {
-							has = true
-						}
-					}
-					if out == nil && has {
-						out = l
-					}
-				}
-			}
-		}
-	})
-	return out
-}
-
-func c18CheckLoop(p *Prog, r *Report, fn *ssa.Function, name string, cfg *c18Cfg, tt *c18Terms, loop *c18Loop, ops []*c18Op, vdir *c18T, pub *c18Op, loopDoneAtPub bool) {
-	R := cfg.Rules
-	construct := name + " every entry of the file map written before publish"
-	if loop == nil {
-		r.Undecide("%s: the files are not written inside a `for name, content := range <map parameter>` loop: how the file set is enumerated is not modelled", name)
-		return
-	}
-	pos := p.Pos(instrPos(loop.Next))
-	// the write inside the loop
-	var w *c18Op
-	for _, o := range ops {
-		if o.Kind != c18WriteKind || !loop.Blocks[o.Call.Block()] {
-			continue
-		}
-		under, self := c18Under(o.Path, vdir)
-		if !under || self {
-			continue
-		}
-		w = o
-	}
-	if w == nil {
-		r.Undecide("%s: the loop over the file map contains no write below the version directory; shape not modelled", name)
-		return
-	}
-	// name and content come from the same iteration
-	keyT := &c18T{Op: "key", Args: []*c18T{tt.Term(loop.Range.X)}}
-	valT := &c18T{Op: "val", Args: []*c18T{tt.Term(loop.Range.X)}}
-	nameOK := false
-	if w.Path.Op == "join" && len(w.Path.Args) >= 1 && w.Path.Args[len(w.Path.Args)-1].String() == keyT.String() {
-		nameOK = true
-	}
-	dataOK := w.Data != nil && tt.Term(w.Data).String() == valT.String()
-	r.Check(nameOK && dataOK, R.Complete, name+" file name and content of the same map entry", p.Pos(instrPos(w.Call)),
-		"path = join(version dir, key), data = value of the same iteration",
-		"the file written in the loop is not <version dir>/<map key> with the map value of the same entry as content (path "+w.Path.String()+", data "+func() string {
-			if w.Data == nil {
-				return "?"
-			}
-			return tt.Term(w.Data).String()
-		}()+"): the published directory does not hold the set passed to Write")
-
-	// every iteration writes: each back edge is preceded by the success edge of w on all paths from the body entry
-	tests, _ := c18ErrTests(w.Call)
-	iterOK := len(tests) > 0
-	why := ""
-	iter := &FlagFlow{Fn: fn, Must: true,
-		Transfer: func(in ssa.Instruction, st uint64) uint64 {
-			if in == loop.Header.Instrs[0] {
-				return 0 // new iteration
-			}
-			return st
-		},
-		EdgeTransfer: func(from, to *ssa.BasicBlock, st uint64) uint64 {
-			for _, t := range tests {
-				if t.If.Block() == from && t.Succ == to && t.Succ != t.Fail {
-					st |= 1
-				}
-			}
-			return st
-		}}
-	iter.Run()
-	for _, pred := range loop.Header.Preds {
-		if !loop.Blocks[pred] {
-			continue
-		}
-		st, ok := iter.Out(pred)
-		if !ok {
-			continue
-		}
-		if st = iter.EdgeTransfer(pred, loop.Header, st); st&1 == 0 {
-			iterOK = false
-			why = "an iteration can end (back edge from the block at " + p.Pos(instrPos(pred.Instrs[len(pred.Instrs)-1])) + ") without having written its file successfully: that entry is missing from the published directory"
-		}
-	}
-	if len(tests) == 0 {
-		why = "the result of the write in the loop is not tested"
-	}
-	// the loop is left only at its end on the way to the publish
-	if iterOK && !loopDoneAtPub {
-		// early exits
-		early := false
-		for b := range loop.Blocks {
-			for _, s := range b.Succs {
-				if !loop.Blocks[s] && !(b == loop.Header && s == loop.Exit) && reachableFrom(s, nil)[pub.Call.Block()] {
-					// straight line to publish?
-					x := s
-					for len(x.Succs) == 1 && x != pub.Call.Block() {
-						x = x.Succs[0]
-					}
-					if x == pub.Call.Block() || len(x.Succs) == 0 {
-						early = true
-					} else {
-						r.Undecide("%s: the loop over the file map is left early and a later test decides whether to publish; shape not modelled", name)
-						return
-					}
-				}
-			}
-		}
-		if early {
-			iterOK = false
-			why = "the loop over the file map can be left before all entries were written (break) and the publishing rename is still reached: a partial set gets published"
-		} else {
-			iterOK = false
-			why = "the publishing rename can be reached without the loop over the file map having run to its end (publish before/inside the loop): the target shows a partial set"
-		}
-	}
-	r.Check(iterOK, R.Complete, construct, pos, "each iteration writes its entry successfully or leaves without publishing; the rename is reached only through the loop's end", why)
-}
-
-// c18CheckLeftovers (W3): a create-type operation that fails when its path
-// exists, on a path that is the same on every call, is left behind by a crash
-// between it and the step that consumes it; the next call then fails forever
-// unless the path is removed first (or EEXIST is handled).
-func c18CheckLeftovers(p *Prog, r *Report, fn *ssa.Function, name string, cfg *c18Cfg, ops []*c18Op) map[*c18Op]bool {
-	R := cfg.Rules
-	removedFirst := map[*c18Op]bool{}
-	for _, o := range ops {
-		if o.Kind != c18CreateExcl {
-			continue
-		}
-		construct := name + " " + o.desc() + " survives a leftover"
-		at := p.Pos(instrPos(o.Call))
-		switch c18Classify(o.Path, cfg.Frozen) {
-		case c18Fresh:
-			r.OK(R.Leftover, construct, at, "path is unique per call: a leftover of a crashed call cannot collide")
-			continue
-		case c18Varying:
-			r.Undecide("%s: cannot tell whether the path of %s is the same on every call", name, o.desc())
-			continue
-		}
-		// invariant path: must be removed before on every path
-		want := o.Path.String()
-		ff := &FlagFlow{Fn: fn, Must: true, Transfer: func(in ssa.Instruction, st uint64) uint64 {
-			for _, q := range ops {
-				if q.Call != in {
-					continue
-				}
-				if q.Kind == c18Remove && q.Path.String() == want {
-					st |= 1
-				}
-				if (q.Kind == c18CreateExcl || q.Kind == c18WriteKind || q.Kind == c18MkdirIdem) && q.Path.String() == want && q != o {
-					st &^= 1
-				}
-				if q.Kind == c18Rename && q.Path.String() == want {
-					st &^= 1
-				}
-			}
-			return st
-		}}
-		ff.Run()
-		st, _ := ff.Before(o.Call)
-		if st&1 != 0 {
-			removedFirst[o] = true
-			r.OK(R.Leftover, construct, at, "the path is removed on every path before it is created")
-			continue
-		}
-		sa := c18StaleAnalysis(p, fn, o, ops)
-		blocked := o.Fn + " fails with EEXIST when " + want + " already exists, the path is the same on every call and nothing removes it first: a process that dies after this step and before the step that consumes the path (rename) leaves it behind, and every later Write — also from a fresh instance — returns \"file exists\" forever"
-		switch {
-		case sa.Opaque != "":
-			r.Undecide("%s: %s is created on a call-invariant path that is not removed first, and %s", name, o.desc(), sa.Opaque)
-		case sa.Readlink:
-			r.Undecide("%s: %s is created on a call-invariant path that is not removed first and the function reads a link back with os.Readlink: content comparison not modelled", name, o.desc())
-		case sa.StaleAtUse:
-			r.Violation(R.Leftover, construct, at,
-				"when "+want+" already exists (left by a call that died between this step and the rename) the failure of "+o.Fn+" is ignored/tolerated and the path is consumed as it is (rename at "+sa.Where+"): what gets renamed over the target is the STALE link, whose content is the crashed call's version directory — the recovering Write returns nil while the target shows the crashed call's (possibly incomplete) files instead of the new set, the new version directory is orphaned and prev names a directory the target does not resolve to. Tolerating EEXIST is not a substitute for removing the leftover first")
-		case sa.Recreated:
-			r.OK(R.Leftover, construct, at, "after a failed creation the link is created again successfully before the path is consumed")
-		default:
-			r.Violation(R.Leftover, construct, at, blocked)
-		}
-	}
-	return removedFirst
-}
-
-// c18CheckDeferred judges deferred operations: they run at every return that
-// follows the defer statement. A deferred mutation of the version directory
-// that can run at a return reachable after the successful rename destroys the
-// published set.
-func c18CheckDeferred(p *Prog, r *Report, fn *ssa.Function, name string, cfg *c18Cfg, deferred []*c18Deferred, vdir *c18T, link *c18Op,
-	closureWrites map[*ssa.Alloc]bool, pubMayHaveSucceeded func(ssa.Instruction) bool) {
-	R := cfg.Rules
-	if len(deferred) == 0 {
-		return
-	}
-	var cells []*ssa.Alloc
-	seen := map[*ssa.Alloc]bool{}
-	for _, d := range deferred {
-		for _, g := range d.Guard {
-			if g.Kind == "flag" && !seen[g.Cell] {
-				seen[g.Cell] = true
-				cells = append(cells, g.Cell)
-			}
-		}
-	}
-	if len(cells) > 30 {
-		r.Undecide("%s: too many flags in deferred functions", name)
-		return
-	}
-	flags := c18FlagFlow(fn, cells, closureWrites)
-	cellIdx := map[*ssa.Alloc]int{}
-	for i, c := range cells {
-		cellIdx[c] = i
-	}
-	for _, d := range deferred {
-		o := d.Op
-		o.vdir = vdir
-		construct := name + " deferred " + o.desc() + " after publish"
-		at := p.Pos(instrPos(d.Where))
-		under, _ := c18Under(o.Path, vdir)
-		switch {
-		case under:
-		case cfg.isTarget(o.Path) || (o.Kind == c18Rename && cfg.isTarget(o.Aux)):
-			r.Violation(R.Paths, name+" deferred "+o.desc(), at, "a deferred "+o.Fn+" acts on the target path itself: the target is not only replaced by the atomic rename")
-			continue
-		case link != nil && o.Path.String() == link.Path.String() && o.Kind == c18Remove:
-			r.OK(R.Paths, name+" deferred "+o.desc(), at, "deferred removal of the temporary link path (harmless)")
-			continue
-		default:
-			r.Undecide("%s: cannot relate the path of the deferred %s to the version directory or the temporary link", name, o.desc())
-			continue
-		}
-		if d.Opaque != "" {
-			r.Undecide("%s: deferred %s: %s", name, o.desc(), d.Opaque)
-			continue
-		}
-		// every return after the defer statement
-		verdict, where := "ok", ""
-		nRet := 0
-		allInstrs(fn, func(in ssa.Instruction) {
-			rd, ok := in.(*ssa.RunDefers)
-			if !ok || !instrReaches(d.Defer, rd) {
-				return
-			}
-			var ret *ssa.Return
-			for _, j := range rd.Block().Instrs {
-				if x, ok := j.(*ssa.Return); ok {
-					ret = x
-				}
-			}
-			if ret == nil {
-				return
-			}
-			nRet++
-			if !pubMayHaveSucceeded(rd) {
-				return // pre-publish phase: cleaning up the unpublished directory is fine
-			}
-			kind := c18ReturnErrKind(ret, closureWrites)
-			fst, _ := flags.Before(rd)
-			runs := "yes"
-			for _, g := range d.Guard {
-				val := "unknown"
-				switch g.Kind {
-				case "err":
-					switch kind {
-					case "nil":
-						val = map[bool]string{true: "false", false: "true"}[g.Val]
-					case "nonnil":
-						val = map[bool]string{true: "true", false: "false"}[g.Val]
-					}
-				case "flag":
-					i := uint(2 * cellIdx[g.Cell])
-					switch {
-					case fst&(1<<i) != 0: // known true
-						val = map[bool]string{true: "true", false: "false"}[g.Val]
-					case fst&(2<<i) != 0: // known false
-						val = map[bool]string{true: "false", false: "true"}[g.Val]
-					}
-				}
-				if val == "false" {
-					runs = "no"
-					break
-				}
-				if val == "unknown" {
-					runs = "maybe"
-				}
-			}
-			switch runs {
-			case "yes":
-				verdict, where = "bad", p.Pos(instrPos(ret))
-			case "maybe":
-				if verdict != "bad" {
-					verdict, where = "unknown", p.Pos(instrPos(ret))
-				}
-			}
-		})
-		switch verdict {
-		case "bad":
-			r.Violation(R.Order, construct, at,
-				"the deferred "+o.Fn+" of the version directory runs at the return at "+where+", which is reachable after the rename over the target succeeded (and satisfies the deferred function's condition): the directory the target now resolves to is deleted, the target dangles although a complete set was published. Clean-up of the version directory must be confined to the phase before the rename")
-		case "unknown":
-			r.Undecide("%s: cannot tell whether the deferred %s runs at the return at %s, which is reachable after the successful rename", name, o.desc(), where)
-		default:
-			r.OK(R.Order, construct, at, "the deferred clean-up of the version directory cannot run at a return that follows the successful rename")
-		}
-	}
 }
